@@ -27,6 +27,10 @@ ids 300..309 are multipath keys with 2 derivation paths, 310..319 with 3.
                                           <figure> is the library's own figure for <ast>,
                                           `-` = the script has no satisfaction
   C sortedmulti-new <ctx> <k> <k1,k2,..> <entry>  ok | ERR   (`Threshold::<Pk, 20>::new` + `*::new_sortedmulti`)
+  C acceptapi <route> <entry> <ctx> <ast> ok | ERR   a miniscript built through the public API
+                                          (route `checked`: from_ast on every node, locks from the
+                                          public constants incl. RelLockTime::ZERO; route `ctor`:
+                                          leaves through Miniscript::pk / multi / older / ...)
   C keyonly <kind> <key> <entry>          ok | ERR   key-only descriptors pk/pkh/wpkh/sh_wpkh/tr
   J keyok <entry> <kind> <key> <outcome>  ok iff (<outcome> = ok ⇔ the context of <kind> permits the key's
                                           kind); a PANIC outcome counts as refused
@@ -88,7 +92,7 @@ def constParams (name : String) : Option ValidationParams :=
 /-! ### atoms -/
 
 def nPathsOfId (k : Key) : Nat :=
-  if 300 ≤ k ∧ k < 310 then 2 else if 310 ≤ k ∧ k < 320 then 3 else 1
+  if 300 ≤ k ∧ k < 310 then 2 else if 310 ≤ k ∧ k < 320 then 3 else if 320 ≤ k ∧ k < 330 then 1 else 0
 
 def keyInfoOf (t : Tables) : KeyInfo := ⟨keyKindOf t.keyEnv, nPathsOfId⟩
 
@@ -123,7 +127,7 @@ def parseEntry (s : String) : Option Entry :=
 
 /-! ### judges -/
 
-def ruleNames : List String := ["top", "cond", "keys", "multi", "range", "size", "depth"]
+def ruleNames : List String := ["top", "cond", "keys", "multi", "range", "size", "depth", "lock0"]
 
 def evalRule (F : Spec.Facts) (ctx : Ctx) (ms : Ms) : String → Bool
   | "top" => Spec.ruleTopB ctx ms
@@ -131,6 +135,7 @@ def evalRule (F : Spec.Facts) (ctx : Ctx) (ms : Ms) : String → Bool
   | "keys" => Spec.ruleKeys F ctx ms
   | "multi" => Spec.ruleMulti ctx ms
   | "range" => Spec.ruleRange ms
+  | "lock0" => Spec.ruleRange ms      -- same rule; named apart for inputs that contain older(0)
   | "size" => Spec.ruleSize F ctx ms
   | "depth" => Spec.ruleDepth ms
   | _ => false
@@ -138,7 +143,8 @@ def evalRule (F : Spec.Facts) (ctx : Ctx) (ms : Ms) : String → Bool
 /-- entry points that hand out fragments (not complete scripts) are not held to the
 top-level rules -/
 def rulesFor (entry : String) : List String :=
-  if (entry.splitOn "/").headD "" == "fromast" then ["keys", "multi", "range", "size", "depth"] else ruleNames
+  if (entry.splitOn "/").headD "" == "fromast" then ["keys", "multi", "range", "size", "depth"]
+  else ["top", "cond", "keys", "multi", "range", "size", "depth"]
 
 def isErr (s : String) : Bool := s.startsWith "ERR"
 
@@ -274,6 +280,10 @@ def opsValidate (t : Tables) (kind op : String) (args : List String) : Option St
     let expectReject := isErr withV || over
     pure (if isErr withoutV == expectReject then "ok"
           else if isErr withoutV then "bad:rejected-within-limit" else "bad:over-limit-accepted")
+  | "C", "acceptapi", [route, entry, ctx, ast] => do
+    let e ← parseEntry entry; let ctx ← parseCtx ctx; let ms ← parseAst ast
+    let ctor ← (match route with | "ctor" => some true | "checked" => some false | _ => none)
+    pure (if acceptsApi ctor t.keyEnv (keyInfoOf t) ctx e ms then "ok" else "ERR")
   | "C", "sortedmulti-new", [ctx, k, keys, _entry] => do
     let ctx ← parseCtx ctx; let k ← k.toNat?; let ks ← (keys.splitOn ",").mapM String.toNat?
     pure (if acceptsSortedMulti t.keyEnv (keyInfoOf t) ctx k ks then "ok" else "ERR")
